@@ -26,6 +26,12 @@ def dump (t : Table) (r : String) : String :=
     else some s!" | {i}: e={ids b.entries} r={ids b.replacements}")
   s!"c={t.count} r={r}" ++ String.join bs
 
+/-- re-tabulate the bucket function (the model's `Table.put` nests one closure per operation;
+    the driver flattens it after every line so that long cases stay fast — same function) -/
+def norm (t : Table) : Table :=
+  let arr := Array.ofFn (n := nBuckets) (fun i => t.buckets i.val)
+  { t with buckets := fun j => if j < nBuckets then arr.getD j {} else t.buckets j }
+
 def parsePair (s : String) : Option (Nat × Nat) :=
   match s.splitOn ":" with
   | [a, b] => do let x ← a.toNat?; let y ← b.toNat?; pure (x, y)
@@ -39,20 +45,21 @@ def step (s : St) (line : String) : St × String :=
     | _, _ => (s, "bad-op")
   | ["add", a] => match a.toNat? with
     | some n =>
-      let (t, c) := add (distOf s.dist) s.tab n
+      let (t0, c) := add (distOf s.dist) s.tab n
+      let t := norm t0
       ({ s with tab := t }, dump t (match c with | some x => toString x | none => "-"))
     | none => (s, "bad-op")
   | "stuff" :: rest => match rest.mapM String.toNat? with
-    | some ns => let t := stuff (distOf s.dist) s.tab ns; ({ s with tab := t }, dump t "-")
+    | some ns => let t := norm (stuff (distOf s.dist) s.tab ns); ({ s with tab := t }, dump t "-")
     | none => (s, "bad-op")
   | ["del", a] => match a.toNat? with
-    | some n => let t := delete (distOf s.dist) s.tab n; ({ s with tab := t }, dump t "-")
+    | some n => let t := norm (delete (distOf s.dist) s.tab n); ({ s with tab := t }, dump t "-")
     | none => (s, "bad-op")
   | ["delrep", a] => match a.toNat? with
-    | some n => let t := deleteReplace (distOf s.dist) s.tab n; ({ s with tab := t }, dump t "-")
+    | some n => let t := norm (deleteReplace (distOf s.dist) s.tab n); ({ s with tab := t }, dump t "-")
     | none => (s, "bad-op")
   | ["bump", a] => match a.toNat? with
-    | some n => let (t, r) := bumpOp (distOf s.dist) s.tab n; ({ s with tab := t }, dump t (toString r))
+    | some n => let (t0, r) := bumpOp (distOf s.dist) s.tab n; let t := norm t0; ({ s with tab := t }, dump t (toString r))
     | none => (s, "bad-op")
   | _ => (s, "bad-op")
 
